@@ -480,6 +480,22 @@ def build_world(seed, quick=True):
         _add_obj("Hourly", "H.rep_%s_flag" % key, spec("HourlyReportingData", "init", ["H.rep_%s_flag" % key]), "reporting", span,
                  problems=problems)
 
+    # a baseline that lacks some month / day-of-week combinations (June-December only; fitted with
+    # ignore_disqualification=True by the "partial" profile) and three reporting sets over ONE index that spans known and
+    # unknown months, differing only in the observed usage (as measured / absent / another load shape)
+    TPL["H.base_partial"] = TPL["H.base"].loc["2022-06-01":].copy()          # June-December
+    _add_obj("Hourly", "H.base_partial", spec("HourlyBaselineData", "init", ["H.base_partial"]), "baseline", "partial year",
+             problems=problems)
+    an = hrep.loc["2023-05-01":"2023-12-31"][["observed", "temperature"]].copy()
+    TPL["H.rep_augnov"] = an
+    alt = an.copy()
+    # the month the baseline never saw (May) with the load shape of December instead of one close to June
+    alt.loc["2023-05-01":"2023-05-31", "observed"] = an.loc["2023-12-01":"2023-12-31", "observed"].to_numpy()
+    TPL["H.rep_augnov_alt"] = alt
+    TPL["H.rep_augnov_noobs"] = an[["temperature"]].copy()
+    for nm, ob in (("H.rep_augnov", True), ("H.rep_augnov_alt", True), ("H.rep_augnov_noobs", False)):
+        _add_obj("Hourly", nm, spec("HourlyReportingData", "init", [nm]), "reporting", "partial year", observed=ob, problems=problems)
+
     # ---------------- CalTRACK hourly
     cb = F.hourly_frame(rng, tz=tz)
     cb.iloc[rng.sample(range(len(cb)), 10), 0] = 0.0
@@ -513,11 +529,12 @@ def build_world(seed, quick=True):
 
 
 MAIN_BASE = {"Daily": "D.base", "Billing": "B.base", "Hourly": "H.base", "Caltrack": "C.base"}
-PROFILES = {"Daily": ["default"], "Billing": ["default"], "Hourly": ["default", "ghi", "supp", "suppcat"], "Caltrack": ["default"]}
+PROFILES = {"Daily": ["default"], "Billing": ["default"], "Hourly": ["default", "ghi", "supp", "suppcat", "partial"], "Caltrack": ["default"]}
 
 
 def fit_main(fam, profile):
-    base = {("Hourly", "ghi"): "H.base_ghi", ("Hourly", "suppcat"): "H.base_flag"}.get((fam, profile), MAIN_BASE[fam])
+    base = {("Hourly", "ghi"): "H.base_ghi", ("Hourly", "suppcat"): "H.base_flag",
+            ("Hourly", "partial"): "H.base_partial"}.get((fam, profile), MAIN_BASE[fam])
     m = new_model(fam, profile)
     if fam == "Caltrack":
         m.fit(OBJ[base]["obj"])
